@@ -12,7 +12,9 @@ import ast, glob, os, re, subprocess, sys
 WT = "/tmp/rebase_wt"
 MARKERS = ("contiguous()", "materialize expanded", "contiguous on their last dimension", "to(torch.float32) * other._scale.to(torch.float32)",
            "evaluated in float32", "reads dense matrices", ".detach()", "must not keep the graph", "hook_handles", "scale_dtype, scale_device",
-           "torch.clamp(input._data, min=-torch.iinfo", "lowest integer code", "input.axis is not None:", "other.axis is not None and (other.ndim != 2")
+           "torch.clamp(input._data, min=-torch.iinfo", "lowest integer code", "input.axis is not None:", "other.axis is not None and (other.ndim != 2",
+           "torch.int16", "does not fit in 8 bits", "scale_kwargs", "not dtype.is_floating_point", "must hold one value per index", "zeropoint.shape != scale.shape",
+           "other.axis not in (None, 0)", "out_scale = op(t._scale)\n")
 
 
 def sh(*a, check=False):
